@@ -437,6 +437,7 @@ func (w *World) evalConfirm(n *Node, cur *Snap, v *accountant.Vertex, op OpInfo)
 		return ev
 	}
 	issuer := v.Transaction.IssuerAddress
+	debt := new(big.Int)
 	in, out := Flows(issuer, func(yield func(*accountant.Vertex)) {
 		seen := map[H]bool{v.Hash: true}
 		for a := range anc {
@@ -464,15 +465,23 @@ func (w *World) evalConfirm(n *Node, cur *Snap, v *accountant.Vertex, op OpInfo)
 				}
 			}
 		})
-		ev.CheckpointOverdrawn = cin.Cmp(cout) < 0 && issuer != w.GenIss
+		if cin.Cmp(cout) < 0 && issuer != w.GenIss {
+			debt = new(big.Int).Sub(cout, cin)
+		}
 	}
-	if n.Tainted[issuer] {
+	if d := n.MaxDebt[issuer]; d != nil && d.Cmp(debt) > 0 {
 		// overdrawn at an earlier truncation (the clamp raised its funds then), even if later checkpointed inflow
 		// made the cumulative net flow positive again
-		ev.CheckpointOverdrawn = true
+		debt = d
 	}
 	ev.In, ev.Out, ev.Amount = in, out, Val(v.Transaction.Spice)
 	need := new(big.Int).Add(out, ev.Amount)
+	// the checkpoint cannot carry a debt: it holds 0 for a wallet whose checkpointed net flow is negative, so the node
+	// sees the wallet richer by that debt at most. A shortfall within it is the known consequence of the C02 finding;
+	// a larger one is not explained by it.
+	if debt.Sign() > 0 && new(big.Int).Sub(need, in).Cmp(debt) <= 0 {
+		ev.CheckpointOverdrawn = true
+	}
 	if issuer == v.Transaction.ReceiverAddress {
 		// a self transfer counts on both sides, exactly as the code accumulates it
 		in = new(big.Int).Add(in, ev.Amount)
